@@ -1,11 +1,12 @@
 #!/bin/bash
 # runs every claimed check at the given tier and prints one summary line each
 tier=${1:-quick}
-cd /verif
+cd "$(dirname "$0")/.."
+mkdir -p /tmp/runall-$tier
 for id in $(python3 -c "import json; print(' '.join(c['property_id'] for c in json.load(open('MANIFEST.json'))['checks']))"); do
   s=$(date +%s)
-  ./check $id $tier > /tmp/runall-$id.log 2>&1
+  ./check $id $tier > /tmp/runall-$tier/$id.log 2>&1
   rc=$?
-  echo "$id rc=$rc $(( $(date +%s) - s ))s $(grep '^check ' /tmp/runall-$id.log | tail -1)"
-  grep '^VIOLATION\|^INCONCLUSIVE\|^KNOWN-FINDING' /tmp/runall-$id.log | cut -c1-300
+  echo "$id rc=$rc $(( $(date +%s) - s ))s $(grep '^check ' /tmp/runall-$tier/$id.log | tail -1)"
+  grep '^VIOLATION\|^INCONCLUSIVE\|^KNOWN-FINDING' /tmp/runall-$tier/$id.log | cut -c1-300
 done
